@@ -911,7 +911,7 @@ func TestCheck(t *testing.T) {
 	rec.Assume("totality is judged on json.Unmarshal into eip712.TypedData + EncodeTypedDataV4 + SignTypedDataV4 (KeyPair signer), each under recover()")
 	rec.Assume("reference: ref/eip712ref.FromJSON, three-valued. Where it says well-formed the library must return that digest; where it says a value cannot have its declared type (non-object for a struct, non-array for an array, wrong element count for a fixed array, integer outside its type's range) the library must return an error; everywhere else (undefined/odd types, odd spellings, lenient byte lengths, duplicate or case-variant keys, fractions/exponents) only totality is asserted")
 	rec.Assume("integers: decimal-string and 0x-hex-string spellings must be accepted with the reference digest; the JSON-number spelling (plain, or with fraction/exponent denoting exactly the integer) must be rejected or give that digest; out of range is rejected in every spelling. Non-integral numbers, leading zeros, 0b/0o, '_' and sign-prefixed hex are not asserted")
-	kDoc := evid.NewKind(rec, "doc", judgeDoc)
+	kDoc := evid.NewKind(rec, "doc", judgeDoc).DeclareEach()
 	kInt := evid.NewKind(rec, "int", judgeInt)
 	rec.Corpus(t)
 
@@ -969,7 +969,7 @@ func TestCheck(t *testing.T) {
 
 func TestReplay(t *testing.T) {
 	rec := evid.Start("C14", rule)
-	evid.NewKind(rec, "doc", judgeDoc)
+	evid.NewKind(rec, "doc", judgeDoc).DeclareEach()
 	evid.NewKind(rec, "int", judgeInt)
 	rec.Replay(t)
 }
